@@ -527,10 +527,13 @@ func e2eStage(out string, seed uint64, tier string) error {
 			items[i] = tarcase.EntsTerm(l)
 			nent += len(l)
 		}
-		// the conditions of the source that hold in this configuration, by their text (Generated/C10Steps.v); every other
-		// condition is false here (no base image, no lock file, TarballPath unset, acceptable layering block)
-		condsS := gal.List([]string{gal.Pair(gal.Str("bc.ic.Layering == nil"), "true"), gal.Pair(gal.Str("bc.ic.Contents.BaseImage == nil"), "true")})
-		condsM := gal.List([]string{gal.Pair(gal.Str("bc.ic.Layering == nil"), "false"), gal.Pair(gal.Str("bc.ic.Contents.BaseImage == nil"), "true")})
+		// the truth of the conditions of the source in this configuration, by their canonical text (Generated/C10Steps.v:
+		// `X != Y` is spelled (`X == Y`, false)); a condition not listed here is left open by Corr/C10.v
+		common := []string{gal.Pair(gal.Str("bc.ic.Contents.BaseImage == nil"), "true"), gal.Pair(gal.Str("bc.baseimg == nil"), "true"),
+			gal.Pair(gal.Str(`bc.o.Lockfile == ""`), "true"), gal.Pair(gal.Str(`bc.o.TarballPath == ""`), "true"),
+			gal.Pair(gal.Str(`bc.ic.Layering.Strategy == "origin"`), "true"), gal.Pair(gal.Str("bc.ic.Layering.Budget < 0"), "false")}
+		condsS := gal.List(append([]string{gal.Pair(gal.Str("bc.ic.Layering == nil"), "true")}, common...))
+		condsM := gal.List(append([]string{gal.Pair(gal.Str("bc.ic.Layering == nil"), "false")}, common...))
 		term := fmt.Sprintf("{| e_budget := %s; e_gs := %s;\n     e_own := %s;\n     e_single := %s;\n     e_layers := %s;\n     e_conds_single := %s; e_events_single := %s; e_conds_multi := %s; e_events_multi := %s |}",
 			gal.Z(int64(c.Budget)), gal.List(gsItems), gal.List(sb.own), tarcase.EntsTerm(sb.ents), gal.List(items),
 			condsS, gal.StrList(sb.events), condsM, gal.StrList(mevents))
